@@ -40,6 +40,62 @@ def gen_param_leading(rng):
     return "#ruledef\n{\n" + "\n".join(rules) + "\n}\n" + "\n".join(lines) + "\n"
 
 
+def gen_slice_bound(rng):
+    """slices whose *bounds* read a label, `$` or a label-dependent constant while the sliced value is a literal, behind an
+    instruction that shrinks once its forward label is known (so the first-pass address is not the final one)"""
+    rules = ["    ld {x} => { assert(x < 0x10), 0x11 @ x`8 }", "    ld {x} => 0x22 @ x`16",
+             "    byteof {v: u32} => 0x55 @ v[$ * 8 + 7 : $ * 8]",
+             "    pick {v: u32}, {k} => 0x66 @ v[k * 8 + 7 : k * 8]",
+             "    low {v: u32}, {k} => 0x77 @ (v`(k * 8))`24"]
+    lines = ["#ruledef", "{"] + rng.sample(rules[2:], rng.randrange(1, 4)) + rules[:2] + ["}"]
+    body = ["ld fwd"]
+    for _ in range(rng.randrange(1, 5)):
+        v = "0x%08x" % rng.randrange(1 << 32)
+        r = rng.random()
+        if r < 0.25 and any("byteof" in l for l in lines):
+            body.append("byteof " + v)
+        elif r < 0.5 and any("pick" in l for l in lines):
+            body.append("pick %s, %s" % (v, rng.choice(["fwd", "fwd - 1", "mid", "k1"])))
+        elif r < 0.65 and any("low" in l for l in lines):
+            body.append("low %s, %s" % (v, rng.choice(["fwd", "mid", "k1"])))
+        elif r < 0.85:
+            body.append("#d8 %s[%s * 8 + 7 : %s * 8]" % (v, *[rng.choice(["fwd", "mid"])] * 2))
+        else:
+            body.append("c%d = %s[mid * 8 + 7 : mid * 8]" % (len(body), v))
+            body.append("#d8 c%d" % (len(body) - 1))
+        if rng.random() < 0.3:
+            body.append("ld fwd")
+    k = rng.randrange(0, len(body))
+    body.insert(k, "mid:")
+    body.append("fwd:")
+    body.append("k1 = fwd - 1")
+    if rng.random() < 0.5:
+        body.append("#d8 0xee")
+    return "\n".join(lines + body) + "\n"
+
+
+def gen_prefix_bucket(rng):
+    """rules that reach the same number of literal parts through different routes: a long literal prefix, a short prefix
+    followed by a sub-rule that spells the rest, a pattern that begins with a sub-rule: every bucket of the index counts"""
+    m = rng.choice(["ld", "mv", "add", "x"])
+    big, small = rng.sample([8, 16, 24], 2) if rng.random() < 0.8 else (8, 8)
+    def enc(tag, bits):
+        return "0x%0*x" % (bits // 4, rng.randrange(1 << bits)) if bits else "0x%x" % tag
+    out = ["#subruledef suffix", "{", "    .b => 0x0", "    .w => 0x1", "}", "#subruledef reg", "{", "    r0 => 0x0", "    r1 => 0x1", "}", "#ruledef", "{"]
+    rules = ["    %s.w {x: u8} => %s @ x" % (m, enc(1, big)),
+             "    %s{s: suffix} {x: u8} => %s @ s`4 @ 0x0`4 @ x" % (m, enc(2, small)),
+             "    r1++ => %s" % enc(3, big + 8),
+             "    {r: reg}++ => %s @ r`8" % enc(4, small)]
+    if rng.random() < 0.5:
+        rules.append("    %s.{t} {x: u8} => %s @ t`8 @ x" % (m, enc(5, rng.choice([8, 16]))))
+    rng.shuffle(rules)
+    out += rules + ["}"]
+    for _ in range(rng.randrange(2, 7)):
+        out.append(rng.choice(["%s.b %d" % (m, rng.randrange(256)), "%s.w %d" % (m, rng.randrange(256)), "r0++", "r1++", "%s.w lab" % m]))
+    out.append("lab:")
+    return "\n".join(out) + "\n"
+
+
 def gen_cases(rng, n):
     base = C03.corpus_files()
     cases = []
@@ -48,6 +104,12 @@ def gen_cases(rng, n):
         defs = None
         if r < 0.06:
             cases.append((gen_param_leading(rng), None, [BIG] + rng.sample([1, 2, 3, 4, 10], 2)))
+            continue
+        if i % 12 == 5:
+            cases.append((gen_slice_bound(rng), None, [BIG] + rng.sample([2, 3, 4, 10], 2)))
+            continue
+        if i % 12 == 9:
+            cases.append((gen_prefix_bucket(rng), None, [BIG] + rng.sample([2, 3, 4, 10], 2)))
             continue
         if r < 0.11:
             # constants only the resolver can evaluate, declared after their readers; symbols named like built-in functions
@@ -134,6 +196,14 @@ def run(chk):
             else:
                 chk.violate("the optimisation switches change the result at budget %d" % b, inp, "four identical results or convergence errors",
                             [(c, l[:160]) for c, l in per_budget[b]])
+    # recorded findings that the random stream does not reach: replay their witnesses under the four settings
+    for kf in known.values():
+        if kf.get("signature", {}).get("classifier") == "witness_only":
+            rs = [fw.asm_line(a) for a in fw.run_oracle_resilient([fw.asm_op([("main.asm", kf["replay"]["program"])], max_iter=BIG, opt_s=s_, opt_m=m_) for (s_, m_) in COMBOS], "c08k")]
+            if len(set(body(l) for l in rs)) > 1:
+                chk.known(kf["id"], kf["observed"])
+            else:
+                chk.notes.append("known finding %s no longer reproduces" % kf["id"])
     # the decidable hypotheses of the theorem `assemble_switch_success` (the two front ends related, the facts about
     # constants), evaluated by the model on every program: they are part of what ties the theorem to this input
     frel_ops = ["frel " + fw.asm_op([("main.asm", text)], max_iter=BIG, defs=defs) for (text, defs, budgets) in cases]
